@@ -100,6 +100,11 @@ def run(tier):
                                       ("global L*\nglobal R+\nglobal S\n", {}), ("global A\nglobal B = \"d\"\nglobal C\nglobal D\n", {"A": A.vstr("a")})]):
         for mode in ("strict", "lazy"):
             sessions.append({"id": "c12g-%d-%s" % (i, mode), "text": decl + "(module) @_m { node n }\n", "mode": mode, "srcs": [2, 5], "globals": glob, "dbg": False})
+    # several nodes each carrying a duplicate definition: which one the error names must not depend on where the nodes happen to lie
+    dtext = "(identifier) @x {\n  let @x.v = 1\n  let @x.v = 2\n}\n"
+    for i, srcs_ in enumerate([[2, 7], [3, 9], [17, 20]]):
+        for mode in ("strict", "lazy"):
+            sessions.append({"id": "c12dd-%d-%s" % (i, mode), "text": dtext, "mode": mode, "srcs": srcs_, "globals": {}, "dbg": False})
     # a function that fails on its argument (an invalid regular expression supplied as a global), before and after runs in which
     # the same function succeeds: every repetition fails the same way
     rtext = "global PAT\n(module) @_m {\n  node n\n  attr (n) r = (replace \"abcabc\" PAT \"x\")\n}\n"
